@@ -95,6 +95,9 @@ J gen_meta(uint64_t seed, bool thorough, Rng &r, int nw) {
   for (auto &c : cvs) { J o = J::obj(); o["kind"] = c.kind; J gs = J::arr(); for (auto &g : c.groups) { J ga = J::arr(); for (int id : g) ga.push(J(id)); gs.push(ga); } o["groups"] = gs; cvj.push(o); }
   sc["cvs"] = cvj;
   sc["chunk"] = (long long)(r.chance(0.6) ? r.range(9, 120) : 0);
+  // a quarter of the jobs find a stale record in the registry: a walker that registered once and whose files are gone
+  // (listed before everyone else: it is the first peer every walker tries to read, at every exchange)
+  sc["ghost"] = r.chance(0.25);
   plan["scenario"] = sc;
   J ops = J::arr();
   for (int w = 0; w < nw; w++) {
@@ -459,6 +462,7 @@ void run_meta(J const &plan, RunResult &res) {
   uint64_t fp = 1469598103934665603ULL;
   SimRun sim(nw, sched, 1, 6000000);
   fs().chunk_exempt_suffixes = {"registry.txt"};   // appends of one short line to the registry are assumed atomic
+  if (sc.has("ghost") && sc.at("ghost").as_bool()) { fs().put("/simfs/shared/registry.txt", "ghost /simfs/gone/out.colvars.mtd.ghost.files.txt\n"); res.counters["fault.stale_registry_record"]++; }
   size_t chunk = (size_t)sc.at("chunk").as_int(0);
   std::vector<Walker> ws((size_t)nw);
   // model: hills deposited by each walker, keyed by step (the trajectory is a function of the step, so a
@@ -477,6 +481,7 @@ void run_meta(J const &plan, RunResult &res) {
   auto peer_state_tag = [&](int a, int b) -> std::string {
     uint64_t newest = 0;
     for (auto const &kv : fs().files) if (is_state_of(kv.first, b)) newest = std::max(newest, kv.second->id);
+    if (newest > 0 && seen_state[(size_t)a][(size_t)b] == 0) return "/peer_state_never_read";
     return newest > seen_state[(size_t)a][(size_t)b] ? "/peer_state_republished_since_read" : "/peer_state_as_read";
   };
   auto prefix_check = [&](int a, int b, colvarbias_meta *mirror, long step, bool must_be_complete_to, long complete_to) {
@@ -632,6 +637,7 @@ void run_meta(J const &plan, RunResult &res) {
       std::vector<colvarbias_meta *> &reps = colvars_verif_access::meta_replicas(me);
       for (size_t ir = 1; ir < reps.size() && !res.violation; ir++) {
         std::string id = colvars_verif_access::meta_replica_id(reps[ir]);
+        if (id == "ghost") continue;   // the stale record: an (empty) mirror of it is legitimate
         int b = id.size() > 1 ? atoi(id.c_str() + 1) : -1;
         if (b < 0 || b >= nw || b == X.w) { res.fail("meta_mirror", "unknown_replica", "walker " + std::to_string(X.w) + " holds a mirror for unknown replica '" + id + "'"); return; }
         mirrors_seen++;
